@@ -102,15 +102,41 @@ impl Handle {
   }
 }
 
+thread_local! {
+  /// fidelity self-test: `Run` = run until stalled (both backends)
+  pub static FIDELITY: std::cell::Cell<bool> = const { std::cell::Cell::new(false) };
+}
+
 pub fn valid(case: &PCase) -> bool {
   case.n_hot >= 1 && case.n_hot <= 4 && case.root.valid(0) && case.root.size() <= 40 && case.acts.len() <= 120
 }
 
 pub fn run_pipeline(case: &PCase) -> Result<PRun, String> {
+  run_pipeline_on(case, false)
+}
+
+/// `real_pool`: fidelity self-test - the tasks run on a real
+/// `futures::executor::LocalPool` (FIFO cases of the local flavour only); `Run`
+/// then means "run until stalled" on either backend.
+pub fn run_pipeline_on(case: &PCase, real_pool: bool) -> Result<PRun, String> {
+  if real_pool && (case.threads_flavour || !case.fifo) {
+    return Err("fidelity runs are local + fifo".into());
+  }
+  let mut pool = futures::executor::LocalPool::new();
+  if real_pool {
+    set_real_pool(Some(pool.spawner()));
+  }
+  let r = run_pipeline_inner(case, if real_pool { Some(&mut pool) } else { None });
+  set_real_pool(None);
+  r
+}
+
+fn run_pipeline_inner(case: &PCase, mut pool: Option<&mut futures::executor::LocalPool>) -> Result<PRun, String> {
   if !valid(case) {
     return Err("invalid pipeline case".into());
   }
   let w = World::new();
+  let fidelity = FIDELITY.with(|f| f.get());
   let log = ProbeLog::new(false);
   let counters = Arc::new(Counters::default());
   let mut run = PRun::default();
@@ -206,7 +232,15 @@ pub fn run_pipeline(case: &PCase) -> Result<PRun, String> {
           }
         }
         PAct::Run(c) => {
-          if w.run_task(if case.fifo { 0 } else { *c as usize }) {
+          if fidelity {
+            match pool.as_mut() {
+              Some(p) => p.run_until_stalled(),
+              None => {
+                w.run_ready_fifo(100_000);
+              }
+            }
+            run.trace.push('R');
+          } else if w.run_task(if case.fifo { 0 } else { *c as usize }) {
             run.trace.push('r');
           }
         }
@@ -252,6 +286,22 @@ pub fn run_pipeline(case: &PCase) -> Result<PRun, String> {
       // periodic task that never retires costs a few thousand polls only
       let horizon = w.now() + 2_000 * MS;
       loop {
+        if let Some(p) = pool.as_mut() {
+          // real LocalPool: run until stalled, then jump to the next deadline
+          p.run_until_stalled();
+          polls += 1;
+          if polls > 5_000 {
+            return false;
+          }
+          match w.shared.next_deadline() {
+            Some(d) if d <= horizon => {
+              w.shared.advance_to(d.max(w.now()));
+              continue;
+            }
+            Some(_) => return false,
+            None => return true,
+          }
+        }
         if w.ready_count() > 0 {
           polls += 1;
           let c = if case.fifo { 0 } else { polls * 5 + 1 };
